@@ -6,12 +6,17 @@ LEVEL = "proof"
 
 def run(ctx):
     npat = 150 if ctx.quick() else 1500
-    generic.standard(ctx, "Props_C14", "c14", "engines-vs-reference", lists=(), model=True, ledger="known/C14.ledger",
-                     extra_args=["-patterns", npat])
+    generic.standard(ctx, ["Props_C14", "Props_Pike", "Props_PikeSpan"], "c14", "engines-vs-reference", lists=(), model=True,
+                     ledger="known/C14.ledger", extra_args=["-patterns", npat])
+    # the PikeVM model of Pike.v vs the real nfa.PikeVM (M), and the real PikeVM vs the reference (R)
+    generic.standard(ctx, [], "pike-cases", "pikevm-model-vs-implementation", lists=("M", "R"), seed=1)
     ctx.coverage["explanation"] = (
         "Coq: the bounded backtracker (all entry points, both modes, any reusable state) equals the reference search; declines exactly "
         "when CanHandle is false. Per run: every engine entry point (PikeVM x 12, BoundedBacktracker x 4, lazy.DFA x 7 forward under 5 "
         "capacity/clear/determinisation configurations incl. a one-state cache, reverse DFA, one-pass DFA) is compared with the "
         "extracted reference evaluated on the SAME NFA dumped from the current compiler, over exhaustive short haystacks on the NFA's "
-        "byte-class representatives and all start offsets; recorded failing inputs in an exact ledger. PikeVM / lazy DFA / one-pass "
-        "are not modelled in Coq: PARTIAL for those engines.")
+        "byte-class representatives and all start offsets; recorded failing inputs in an exact ledger. PikeVM (Pike.v, PikeSpan.v): the "
+        "model of IsMatch / SearchAt (priority-ordered thread lists, sparse-set visited, leftmost-first cut) is proved to return exactly "
+        "the reference span for every well-formed NFA, haystack and offset (pike_search_is_ref), and is run against the real nfa.PikeVM "
+        "on every check (lists M: model = implementation, R: implementation = reference). Lazy DFA and one-pass DFA: see the Dfa module "
+        "if present in this tree; otherwise compared with the reference only.")
